@@ -7,6 +7,7 @@ package logsched
 
 import (
 	"fmt"
+	"runtime"
 	"time"
 )
 
@@ -16,12 +17,13 @@ type Sched struct {
 	parked chan int
 	done   []bool
 	cur    int
+	abort  chan struct{}
 	Steps  int
 }
 
 // New creates a scheduler for n goroutines.
 func New(n int) *Sched {
-	s := &Sched{wake: make([]chan struct{}, n), parked: make(chan int), done: make([]bool, n), cur: -1}
+	s := &Sched{wake: make([]chan struct{}, n), parked: make(chan int), done: make([]bool, n), cur: -1, abort: make(chan struct{})}
 	for i := range s.wake {
 		s.wake[i] = make(chan struct{})
 	}
@@ -55,8 +57,15 @@ func (s *Sched) Start(tid int, body func()) error {
 func (s *Sched) Yield() {
 	tid := s.cur
 	s.parked <- tid
-	<-s.wake[tid]
+	select {
+	case <-s.wake[tid]:
+	case <-s.abort:
+		runtime.Goexit() // the run was abandoned: do not leak the parked goroutine
+	}
 }
+
+// Abort ends the goroutines that are still parked (used when a run is cut short).
+func (s *Sched) Abort() { close(s.abort) }
 
 // Step lets goroutine tid perform its next atomic operation.  It reports false (a stutter)
 // when the goroutine has already returned.
